@@ -254,7 +254,7 @@ fn run(ctx: &Arc<Ctx>) {
     }
     let ex = if ctx.quick() { None } else { Some("every single set bit of every codeword of every size through new_with_codewords/bitmap/codewords") };
     ctx.run_enumerated("single-bits", "cw", singles, ex, check_values);
-    ctx.run_generated("generated", "cw", ctx.cases(20_000, 400_000), g_cw, check_values);
+    ctx.run_generated("generated", "cw", ctx.cases(100_000, 1_000_000), g_cw, check_values);
 }
 
 fn replay(_ctx: &Ctx, kind: &str, case: &Value) -> Option<Verdict> {
